@@ -81,7 +81,7 @@ theorem first_inv (env : Env) (buf : Bytes) (hw : WF env buf.size) (hcap : ¬ bu
 
 /-- **converse**: if `LZ4_decompress_generic` (full decoding) returns `n ≥ 0`, the specification decoder, given the history the decoder
     could see, decodes the same input to exactly the `n` bytes now at `dst` — unless the walk over the sequences meets an offset 0 -/
-theorem generic_conv (env : Env) (buf : Bytes) (hw : WF2 env buf.size) (r : Result) (h : generic env buf = .ok r) (hret : 0 ≤ r.ret) :
+theorem generic_conv (env : Env) (buf : Bytes) (hw : WF2 env buf.size) (hnp : env.partialD = false) (r : Result) (h : generic env buf = .ok r) (hret : 0 ≤ r.ret) :
     decode (histOf env buf) env.src.toList = some ((r.buf.extract env.dst0 (env.dst0 + r.ret.toNat)).toList) ∨
     (∃ f, HasZero f env.src.toList) := by
   have hd := hw.wf.dst0_le
@@ -89,7 +89,7 @@ theorem generic_conv (env : Env) (buf : Bytes) (hw : WF2 env buf.size) (r : Resu
   unfold generic at h
   dsimp only at h
   by_cases hcap : buf.size - env.dst0 = 0
-  · rw [if_pos hcap, hw.np] at h
+  · rw [if_pos hcap, hnp] at h
     simp only [Bool.false_eq_true, if_false] at h
     by_cases h1 : env.src.size = 1 ∧ env.src[0]! = 0
     · rw [if_pos h1] at h
@@ -141,7 +141,7 @@ theorem generic_conv (env : Env) (buf : Bytes) (hw : WF2 env buf.size) (r : Resu
         subst h
         simp only [Good] at hgood
         dsimp only at hret ⊢
-        have hconv := loop_conv env buf.size hw (env.src.size + 2) _ ⟨0, env.dst0, buf⟩ hfirst hinv _ (rel_start env buf hd) stf hl
+        have hconv := loop_conv env buf.size hw hnp (env.src.size + 2) _ ⟨0, env.dst0, buf⟩ hfirst hinv _ (rel_start env buf hd) stf hl
         rcases hconv with ⟨f, outf, hdec, hrel⟩ | hz
         · left
           dsimp only at hdec
@@ -159,11 +159,14 @@ theorem generic_conv (env : Env) (buf : Bytes) (hw : WF2 env buf.size) (r : Resu
           exact hz
 
 /-- **forward**: on an input that meets the forward hypothesis (`VTail`: what a format-valid block guarantees, `vtail_of_valid`),
-    `LZ4_decompress_generic` returns the exact decoded size and leaves exactly the specified bytes at `dst` -/
-theorem generic_fwd (env : Env) (buf : Bytes) (hw : WF2 env buf.size) (hcap : env.dst0 < buf.size) (f : Nat)
-    (hv : VTail buf.size f env.dst0 env.src.toList (histOf env buf)) :
-    ∃ r outf, generic env buf = .ok r ∧ decodeAux f env.src.toList (histOf env buf) = some outf ∧ 0 ≤ r.ret ∧ r.buf.size = buf.size ∧
-      outf.drop (histOf env buf).length = (r.buf.extract env.dst0 (env.dst0 + r.ret.toNat)).toList := by
+    `LZ4_decompress_generic` returns the exact decoded size and leaves exactly the specified bytes at `dst`; in partial mode it may
+    instead stop with the destination full, holding exactly the prefix of the content that fits -/
+theorem generic_fwd (env : Env) (buf : Bytes) (hw : WF2 env buf.size) (hcap : env.dst0 < buf.size) (f : Nat) (fin : List UInt8)
+    (hv : VTail env buf.size f env.dst0 env.src.toList (histOf env buf)) (hdec : decodeAux f env.src.toList (histOf env buf) = some fin) :
+    ∃ r, generic env buf = .ok r ∧ 0 ≤ r.ret ∧ r.buf.size = buf.size ∧ env.dst0 + r.ret.toNat ≤ buf.size ∧
+      (r.buf.extract env.dst0 (env.dst0 + r.ret.toNat)).toList = (fin.drop (histOf env buf).length).take r.ret.toNat ∧
+      (r.ret.toNat = fin.length - (histOf env buf).length ∨
+        (env.partialD = true ∧ env.dst0 + r.ret.toNat = buf.size ∧ r.ret.toNat ≤ fin.length - (histOf env buf).length)) := by
   have hd := hw.wf.dst0_le
   have hL := hw.wf.low_le
   unfold generic
@@ -183,34 +186,42 @@ theorem generic_fwd (env : Env) (buf : Bytes) (hw : WF2 env buf.size) (hcap : en
     obtain ⟨hfirst, hinv⟩ := first_inv env buf hw.wf (by omega) hsrc
     have hgood := loop_good env buf.size hw.wf (env.src.size + 2) _ hinv (Or.inr (by
       rcases hfirst with hf | hf <;> rw [hf] <;> simp only [nextIp] <;> omega)) (by omega)
-    obtain ⟨stf, outf, h1, h2, h3⟩ := loop_fwd env buf.size hw (env.src.size + 2) _ ⟨0, env.dst0, buf⟩ hfirst hinv (by dsimp only; omega) _
-      (rel_start env buf hd) f (by dsimp only; rw [rem_zero]; exact hv)
+    obtain ⟨stf, h1, outP, h3, hpre, hcase⟩ := loop_fwd env buf.size hw (env.src.size + 2) _ ⟨0, env.dst0, buf⟩ hfirst hinv (by dsimp only; omega) _
+      (rel_start env buf hd) f fin (by dsimp only; rw [rem_zero]; exact hv) (by dsimp only; rw [rem_zero]; exact hdec)
     rw [h1] at hgood ⊢
     simp only [Good] at hgood
-    dsimp only at h2
-    rw [rem_zero] at h2
-    refine ⟨_, outf, rfl, h2, by dsimp only; omega, hgood.1, ?_⟩
-    dsimp only
-    rw [histOf_length env buf hd, rel_drop env stf.buf stf.op outf h3 (by omega) hgood.2.1 (by omega)]
-    congr 2
-    omega
+    have hhl := histOf_length env buf hd
+    have hplen := h3.len
+    have hdrop := rel_drop env stf.buf stf.op outP h3 (by omega) hgood.2.1 (by omega)
+    have hpl : outP.length ≤ fin.length := hpre.length_le
+    have hpt : outP = fin.take outP.length := (List.prefix_iff_eq_take.mp hpre)
+    have hret : ((stf.op : Int) - env.dst0).toNat = stf.op - env.dst0 := by omega
+    refine ⟨_, rfl, by dsimp only; omega, hgood.1, by dsimp only; omega, ?_, ?_⟩
+    · dsimp only
+      rw [hret, show env.dst0 + (stf.op - env.dst0) = stf.op by omega, ← hdrop, hhl, hpt, List.drop_take]
+      congr 1
+      omega
+    · dsimp only
+      rw [hret, hhl]
+      rcases hcase with hc | ⟨hp, hn⟩
+      · left; rw [← hc]; omega
+      · right; exact ⟨hp, by omega, by omega⟩
 
 /-! ## `LZ4_decompress_safe` -/
 
 theorem extract_toList_take (a : Bytes) (n : Nat) : (a.extract 0 n).toList = a.toList.take n := by simp
 
+theorem wf2_safe (fastLoop partialD : Bool) (src : Bytes) (N : Nat) : WF2 { src := src, fastLoop := fastLoop, partialD := partialD } N :=
+  ⟨⟨Nat.zero_le _, Int.le_refl _, fun _ => Int.le_refl _, (fun h => by cases h), rfl, fun _ => rfl⟩, (fun h => by cases h)⟩
 
-theorem wf2_safe (fastLoop : Bool) (src : Bytes) (N : Nat) : WF2 { src := src, fastLoop := fastLoop } N :=
-  ⟨⟨Nat.zero_le _, Int.le_refl _, fun _ => Int.le_refl _, (fun h => by cases h), rfl, fun _ => rfl⟩, (fun h => by cases h), rfl⟩
-
-theorem histOf_safe (fastLoop : Bool) (src buf : Bytes) : histOf { src := src, fastLoop := fastLoop } buf = [] := by
+theorem histOf_safe (fastLoop partialD : Bool) (src buf : Bytes) : histOf { src := src, fastLoop := fastLoop, partialD := partialD } buf = [] := by
   unfold histOf; simp
 
 /-- `LZ4_decompress_safe`, converse -/
 theorem decompress_safe_conv (fastLoop : Bool) (src dstInit : Bytes) (r : Result) (h : decompress_safe fastLoop src dstInit = .ok r) (hret : 0 ≤ r.ret) :
     decode [] src.toList = some (r.buf.toList.take r.ret.toNat) ∨ (∃ f, HasZero f src.toList) := by
   unfold decompress_safe at h
-  rcases generic_conv _ dstInit (wf2_safe fastLoop src dstInit.size) r h hret with hc | hz
+  rcases generic_conv _ dstInit (wf2_safe fastLoop false src dstInit.size) rfl r h hret with hc | hz
   · left
     rw [histOf_safe] at hc
     dsimp only at hc
@@ -219,46 +230,95 @@ theorem decompress_safe_conv (fastLoop : Bool) (src dstInit : Bytes) (r : Result
     exact extract_toList_take _ _
   · right; exact hz
 
+/-- what a format-valid block provides: the specification's output `fin`, and the forward hypothesis -/
+theorem valid_block_vtail (env : Env) (N : Nat) (hist blk D : List UInt8) (seqs : List Seq) (last : List UInt8) (op : Nat)
+    (hdec : decode hist blk = some D) (hparse : parse blk = some (seqs, last)) (hend : endConditions seqs last = true)
+    (hroom : env.partialD = true ∨ op + D.length ≤ N) :
+    ∃ fin, decodeAux (blk.length + 1) blk hist = some fin ∧ fin.drop hist.length = D ∧ fin.length = hist.length + D.length ∧
+      VTail env N (blk.length + 1) op blk hist := by
+  unfold decode at hdec
+  cases hda : decodeAux (blk.length + 1) blk hist with
+  | none => rw [hda] at hdec; cases hdec
+  | some fin =>
+    rw [hda] at hdec
+    simp only [Option.map_some, Option.some.injEq] at hdec
+    have hexec : exec hist seqs last = some fin := by
+      have := decodeAux_eq_parse_exec (blk.length + 1) blk hist
+      unfold parse at hparse
+      rw [hparse, hda] at this
+      exact this.symm
+    have hfl : fin.length = hist.length + D.length := by
+      have := exec_length_ge seqs hist last fin hexec
+      rw [← hdec, List.length_drop]; omega
+    refine ⟨fin, rfl, hdec, hfl, ?_⟩
+    refine vtail_of_valid env N (blk.length + 1) blk hist seqs last fin op hparse hexec (EC_of_endConditions seqs last hend) ?_
+    rcases hroom with h | h
+    · exact Or.inl h
+    · right; omega
+
 /-- `LZ4_decompress_safe`, forward -/
 theorem decompress_safe_fwd (fastLoop : Bool) (blk : List UInt8) (dstInit : Bytes) (D : List UInt8) (seqs : List Seq) (last : List UInt8)
     (hdec : decode [] blk = some D) (hparse : parse blk = some (seqs, last)) (hend : endConditions seqs last = true)
     (hroom : D.length ≤ dstInit.size) (hcap : 0 < dstInit.size) :
     ∃ r, decompress_safe fastLoop blk.toArray dstInit = .ok r ∧ r.ret = D.length ∧ r.buf.size = dstInit.size ∧ r.buf.toList.take D.length = D := by
-  unfold decode at hdec
-  cases hda : decodeAux (blk.length + 1) blk [] with
-  | none => rw [hda] at hdec; cases hdec
-  | some fin =>
-    rw [hda] at hdec
-    simp only [Option.map_some, List.length_nil, List.drop_zero, Option.some.injEq] at hdec
-    subst hdec
-    have hexec : exec [] seqs last = some fin := by
-      have := decodeAux_eq_parse_exec (blk.length + 1) blk []
-      unfold parse at hparse
-      rw [hparse, hda] at this
-      exact this.symm
-    have hvt := vtail_of_valid dstInit.size (blk.length + 1) blk [] seqs last fin 0 hparse hexec (EC_of_endConditions seqs last hend) (by simpa using hroom)
-    obtain ⟨r, outf, h1, h2, h3, h4, h5⟩ := generic_fwd { src := blk.toArray, fastLoop := fastLoop } dstInit (wf2_safe _ _ _) hcap (blk.length + 1)
-      (by rw [histOf_safe]; simpa using hvt)
-    rw [histOf_safe] at h2 h5
-    rw [hda] at h2
-    simp only [Option.some.injEq] at h2
-    subst h2
-    simp only [List.length_nil, List.drop_zero, Nat.zero_add] at h5
-    have hlen : fin.length = min r.ret.toNat r.buf.size := by
-      have := congrArg List.length h5
-      simpa using this
-    have hle : r.ret.toNat ≤ r.buf.size := by
-      obtain ⟨r', hr', _, hr3⟩ := LZ4V.Model.Decode.generic_total { src := blk.toArray, fastLoop := fastLoop } dstInit (wf2_safe _ _ _).wf
-      rw [h1] at hr'
-      simp only [Except.ok.injEq] at hr'
-      subst hr'
-      rw [h4]
-      dsimp only at hr3
-      omega
-    refine ⟨r, h1, by omega, h4, ?_⟩
-    rw [h5, extract_toList_take, List.length_take]
-    congr 1
-    simp only [Array.length_toList]
+  obtain ⟨fin, hda, hdrop, hfl, hvt⟩ := valid_block_vtail { src := blk.toArray, fastLoop := fastLoop } dstInit.size [] blk D seqs last 0
+    hdec hparse hend (Or.inr (by simpa using hroom))
+  obtain ⟨r, h1, h2, h3, h4, h5, h6⟩ := generic_fwd { src := blk.toArray, fastLoop := fastLoop } dstInit (wf2_safe _ _ _ _) hcap (blk.length + 1) fin
+    (by rw [histOf_safe]; simpa using hvt) (by rw [histOf_safe]; simpa using hda)
+  rw [histOf_safe] at h5 h6
+  simp only [List.length_nil, Nat.sub_zero, Nat.zero_add, List.drop_zero] at h5 h6 hdrop hfl
+  subst hdrop
+  have hlen : r.ret.toNat = fin.length := by
+    rcases h6 with h6 | ⟨hp, _⟩
+    · exact h6
+    · cases hp
+  refine ⟨r, h1, by omega, h3, ?_⟩
+  rw [← hlen, ← extract_toList_take, h5, hlen, List.take_length]
+
+/-- `LZ4_decompress_safe_partial`, forward (C16): for a format-valid block with content `D`, any target and any capacity that holds
+    `min target |D|` bytes: the call returns `min target |D|` and the destination starts with exactly that prefix of `D` -/
+theorem decompress_safe_partial_fwd (fastLoop : Bool) (blk : List UInt8) (dstInit : Bytes) (target : Nat) (D : List UInt8)
+    (seqs : List Seq) (last : List UInt8) (hdec : decode [] blk = some D) (hparse : parse blk = some (seqs, last))
+    (hend : endConditions seqs last = true) (hroom : min target D.length ≤ dstInit.size) :
+    ∃ r, decompress_safe_partial fastLoop blk.toArray dstInit target = .ok r ∧ r.ret = (min target D.length : Nat) ∧
+      r.buf.size = dstInit.size ∧ r.buf.toList.take (min target D.length) = D.take (min target D.length) := by
+  unfold decompress_safe_partial
+  dsimp only
+  have hcsz : (dstInit.extract 0 (min target dstInit.size)).size = min target dstInit.size := by simp
+  by_cases hc0 : min target dstInit.size = 0
+  · -- nothing requested (or no room): the call returns 0 at once
+    have hg : generic { src := blk.toArray, fastLoop := fastLoop, partialD := true } (dstInit.extract 0 (min target dstInit.size)) =
+        .ok ⟨0, dstInit.extract 0 (min target dstInit.size)⟩ := by
+      unfold generic
+      dsimp only
+      rw [if_pos (by rw [hcsz]; omega)]
+      rfl
+    rw [hg]
+    have hm0 : min target D.length = 0 := by omega
+    refine ⟨_, rfl, by dsimp only; omega, ?_, by rw [hm0]; simp⟩
+    dsimp only
+    simp only [Array.size_append, Array.size_extract]
     omega
+  · obtain ⟨fin, hda, hdrop, hfl, hvt⟩ := valid_block_vtail { src := blk.toArray, fastLoop := fastLoop, partialD := true }
+      (dstInit.extract 0 (min target dstInit.size)).size [] blk D seqs last 0 hdec hparse hend (Or.inl rfl)
+    obtain ⟨r, h1, h2, h3, h4, h5, h6⟩ := generic_fwd { src := blk.toArray, fastLoop := fastLoop, partialD := true }
+      (dstInit.extract 0 (min target dstInit.size)) (wf2_safe _ _ _ _) (by rw [hcsz]; dsimp only; omega) (blk.length + 1) fin
+      (by rw [histOf_safe]; simpa using hvt) (by rw [histOf_safe]; simpa using hda)
+    rw [histOf_safe] at h5 h6
+    simp only [List.length_nil, Nat.sub_zero, Nat.zero_add, List.drop_zero] at h4 h5 h6 hdrop hfl
+    subst hdrop
+    rw [hcsz] at h3 h4 h6
+    rw [h1]
+    have hret : r.ret.toNat = min target fin.length := by
+      rcases h6 with h6 | ⟨_, h6, h7⟩
+      · omega
+      · omega
+    refine ⟨_, rfl, by dsimp only; omega, ?_, ?_⟩
+    · dsimp only
+      simp only [Array.size_append, Array.size_extract, h3]
+      omega
+    · dsimp only
+      rw [← hret, Array.toList_append, List.take_append_of_le_length (by simp only [Array.length_toList]; omega),
+        ← extract_toList_take, h5]
 
 end LZ4V.Model.Decode
